@@ -95,6 +95,12 @@ func (m *MergeCompactionIterator) Next() ([]byte, []byte, error) {
 			}
 		}
 
+		// the empty key may arrive as nil (protobuf decodes empty bytes as nil), which is also the marker for
+		// "no previous key yet" and for "reduced away" below: normalize it to a non-nil empty slice
+		if k == nil {
+			k = []byte{}
+		}
+
 		var toReturnKey, toReturnVal []byte
 		//we have to accumulate the whole sequence
 		if m.prevKey != nil && m.comp.Compare(k, m.prevKey) != 0 {
